@@ -54,7 +54,9 @@ partial def decodeVal (j : Json) : GoVal :=
   | "map" =>
     let kk := match getS j "kk" with | "named" => KeyKind.named | "iface" => .iface | _ => .str
     let kvs := arr "v"
-    .map kk (getB j "nil") (kvs.map fun kv => unhex ((kv.getArrVal? 0).toOption.bind (·.getStr?.toOption) |>.getD "")) (kvs.map fun kv => decodeVal ((kv.getArrVal? 1).toOption.getD Json.null))
+    -- "~ns:<hex>": a key of a named string type held in an interface-keyed map: the library converts it to the string it holds
+    let keyOf (s : String) : Bytes := unhex (if s.startsWith "~ns:" then (s.drop 4).toString else s)
+    .map kk (getB j "nil") (kvs.map fun kv => keyOf ((kv.getArrVal? 0).toOption.bind (·.getStr?.toOption) |>.getD "")) (kvs.map fun kv => decodeVal ((kv.getArrVal? 1).toOption.getD Json.null))
   | "struct" =>
     let fs := arr "v"
     .struct (fs.map fun f => (((f.getArrVal? 0).toOption.bind (·.getStr?.toOption) |>.getD "").toUTF8.toList, ((f.getArrVal? 1).toOption.bind (·.getNat?.toOption) |>.getD 1) != 0))   -- 1 exported, 2 exported with static type any
@@ -106,7 +108,7 @@ partial def canon : GoVal → String
 
 def handleEval (T : Tables) (line : String) : String :=
   -- map keys that are not strings (nil, int, bool keys of a map[any]any) are written as "~…": not representable in GoVal
-  if (line.splitOn "\"~").length > 1 then "UNMODELLED" else
+  if (line.splitOn "\"~").length > (line.splitOn "\"~ns:").length then "UNMODELLED" else
   -- values that contain themselves ("t":"cyc"): the model's values are finite trees
   if (line.splitOn "\"t\":\"cyc\"").length > 1 then "UNMODELLED" else
   match Json.parse line with
@@ -141,7 +143,21 @@ def handleCue (line : String) : String :=
     let p := match j.getObjVal? "p" with | .ok (.arr a) => a.toList.filterMap (·.getStr?.toOption) | _ => []
     let cp := (j.getObjValAs? String "cp").toOption.getD ""
     let pos := (j.getObjValAs? String "pos").toOption.getD ""
-    if pos != "" then "UNMODELLED" else      -- only key-only paths are modelled; other query shapes are checked by the Go oracle
+    -- a path of keys, element functions and filters on one element key (`….First().k`, `…[@.k.IsNull()]`): "steps" = ["k:<key>" | "e" | "c:<key>"]
+    let steps : Option (List Step) := match j.getObjVal? "steps" with
+      | .ok (.arr a) => some (a.toList.filterMap fun x => match x.getStr?.toOption with
+          | some "e" => some Step.elem
+          | some s => if s.startsWith "k:" then some (Step.key (s.drop 2).toString) else if s.startsWith "c:" then some (Step.cond (s.drop 2).toString) else none
+          | none => none)
+      | _ => none
+    if pos == "elem" && steps.isSome then
+      match validateS root (steps.getD []) cp with
+      | .acc t io => s!"ACC {t} {io}"
+      | .rej c => s!"REJ {c}"
+      | .err => "ERR"
+    else
+    -- "at-root": the same key path written from `@` at the top level: it starts at the root like `$`
+    if pos != "" && pos != "at-root" then "UNMODELLED" else      -- other query shapes are checked by the Go oracle
     let calls : List (String × Nat) := match j.getObjVal? "calls" with
       | .ok (.arr a) => a.toList.map fun c => ((c.getObjValAs? String "n").toOption.getD "", (c.getObjValAs? Nat "k").toOption.getD 0)
       | _ => []
